@@ -268,6 +268,7 @@ class Unit:
         arm = None
         arm_tail = None
         nodecreases = False
+        loopfacts = False
         optional_loops = set()
         mode = 'clauses'
         cur = None
@@ -316,6 +317,9 @@ class Unit:
                 continue
             if t == 'nodecreases':
                 nodecreases = True
+                continue
+            if t == 'loopfacts':
+                loopfacts = True
                 continue
             m = re.match(r'arm\s+/(.*)/\s*=>\s*(fn\s+(\w+).*)$', t)
             if m:
@@ -456,6 +460,11 @@ class Unit:
             # correctness only.  Stated per unit under //@trusted.
             emit('#[verifier::exec_allows_no_decreases_clause]')
             rw.bump('R12')
+        if loopfacts:
+            # proof-search only: facts established before a loop stay visible inside and after it
+            # (Verus checks loops in isolation by default); needed where a fact relates the final
+            # value of a `&mut` borrow that is still alive in the loop and cannot be restated there
+            emit('#[verifier::loop_isolation(false)]')
         # signature (R4)
         sig = head
         if ret:
